@@ -51,7 +51,10 @@ def _binom_pmf(n, p):
 class Oracle:
     """One execution: replays `prefix`, then answers index 0 at every later choice point."""
 
-    def __init__(self, prefix=(), max_points=400):
+    def __init__(self, prefix=(), max_points=400, cycle_uniform=False):
+        # cycle_uniform: beyond the prefix, uniform draws (choice / randint) answer 0, 1, 2, ... in turn instead of
+        # always 0, so that rejection loops ("draw until enough distinct values") terminate in single-run mode
+        self.cycle_uniform = cycle_uniform
         self.prefix = list(prefix)
         self.trace = []  # (kind, params, [(answer, prob)...], chosen index)
         self.prob = 1.0
@@ -73,6 +76,8 @@ class Oracle:
             c = self.prefix[i]
             if not (0 <= c < len(menu)):
                 raise Divergence(f"replay divergence at point {i}: choice {c} not in menu of {len(menu)} ({kind}{params})")
+        elif self.cycle_uniform and kind in ("choice", "randint"):
+            c = i % len(menu)
         else:
             c = 0
         self.trace.append((kind, params, menu, c))
